@@ -6,6 +6,7 @@ sys.path.insert(0, os.path.join(VERIF, "harness", "llsym"))
 import core, z3
 from core import bv, is_sym
 from replay import Tr
+from fault import succeeded, failed_now, OpFailed
 from seqcheck import beq, conj, disj, elems_eq
 
 PID = "C06"
@@ -118,6 +119,9 @@ class Str:
         ex = self.ex
         c = ex.fresh_bv("chr", 32)
         r = self.call("a_str_catc" if term else "a_str_catc_", c, ret="i32")
+        if failed_now(ex):
+            ex.check(eq32(r, 0xFFFFFFFF), "catc:allocation-failure-not-reported")
+            raise OpFailed()
         ex.check(eq32(r, c), "catc:return-value")
         self.model.append(low8(c))
         self.check("catc" if term else "catc_", term)
@@ -147,7 +151,7 @@ class Str:
         src = self.sym_bytes(n, "src")
         a = self.buf(src, "src") if n else 0
         rc = self.call("a_str_catn" if term else "a_str_catn_", a, n, ret="i32")
-        ex.check(rc == 0, "catn:unexpected-failure")
+        succeeded(ex, rc == 0, "catn:unexpected-failure")
         self.model += src
         self.check("catn" if term else "catn_", term)
 
@@ -160,7 +164,7 @@ class Str:
         src = self.sym_bytes(n, "cs", nonzero=True)
         a = self.buf(src, "cstr", nul=True)
         rc = self.call("a_str_cats" if term else "a_str_cats_", a, ret="i32")
-        ex.check(rc == 0, "cats:unexpected-failure")
+        succeeded(ex, rc == 0, "cats:unexpected-failure")
         self.model += src
         self.check("cats" if term else "cats_", term)
 
@@ -172,7 +176,7 @@ class Str:
         n = ex.pick([0, 2, 9], "cat_n")
         o = Str(ex, self.tr, 16 if n else 0, n, False, "o")
         rc = self.call("a_str_cat" if term else "a_str_cat_", o.s, ret="i32")
-        ex.check(rc == 0, "cat:unexpected-failure")
+        succeeded(ex, rc == 0, "cat:unexpected-failure")
         self.model += o.model
         self.check("cat" if term else "cat_", term)
         o.check("cat:source-unchanged")
@@ -219,6 +223,9 @@ class Str:
         fmt = self.buf([0x25, 0x73], "fmt", nul=True)      # "%s"
         arg = self.buf(F, "arg", nul=True)
         r = self.tr.call("a_str_catf", self.s, fmt, arg, ret="i32")
+        if failed_now(ex):
+            ex.check(r == 0, "catf:allocation-failure-not-reported", "r=%s" % r)
+            raise OpFailed()
         ex.check(r == L, "catf:returns-formatted-length", "r=%s L=%d" % (r, L))
         self.model += F
         self.check("catf", True)
@@ -277,7 +284,7 @@ class Str:
         ex = self.ex
         m = ex.pick([0, 1, 8, 9, 17], "setm")
         rc = self.call("a_str_setm", m, ret="i32")
-        ex.check(rc == 0, "setm:unexpected-failure")
+        succeeded(ex, rc == 0, "setm:unexpected-failure")
         ex.check(self.cur()[2] >= m, "setm:capacity-not-reached")
         self.check("setm")
 
@@ -333,7 +340,7 @@ class Str:
         if ex.concrete is None:
             ex.add(z3.And(z3.UGE(c, 1), z3.ULE(c, 0x7FFFFFFF)))
         rc = self.call("a_utf_catc", c, ret="i32")
-        ex.check(rc == 0, "utf_catc:unexpected-failure")
+        succeeded(ex, rc == 0, "utf_catc:unexpected-failure")
         ptr, num, mem = self.cur()
         num = ex.concretize(num, limit=32) if is_sym(num) else num
         k = num - len(self.model)
